@@ -1014,7 +1014,9 @@ func (r *transformingReader) Read(data []byte) (n int, err error) {
 		if err := r.prepareMessage(); err != nil {
 			r.err = err
 			r.rw.reportError(err)
-			return 0, io.EOF
+			// The handler must see a failed read, not a clean end of the
+			// request: for a unary call an empty body is a valid message.
+			return 0, err
 		}
 	}
 }
